@@ -3,7 +3,8 @@
 patch="$1"; prop="$2"; tier="${3:-quick}"
 cd /repo || exit 2
 git diff --quiet || { echo "/repo has uncommitted changes"; exit 2; }
-git apply --3way "$patch" 2>/dev/null || git apply "$patch" || { echo "PATCH DOES NOT APPLY: $patch"; git checkout -- . ; exit 3; }
+git apply "$patch" 2>/dev/null || git apply --3way "$patch" 2>/dev/null || { echo "PATCH DOES NOT APPLY: $patch"; git reset -q --hard HEAD; exit 3; }
+if git status --short | grep -q "^UU"; then echo "PATCH DOES NOT APPLY (conflict): $patch"; git reset -q --hard HEAD; exit 3; fi
 git reset -q 2>/dev/null
 cd /verif && ./check "$prop" "$tier" 2>&1 | grep -a -E "^(VIOLATION|KNOWN|SUMMARY|CHECK-BROKEN|INCONCLUSIVE)" | cut -c1-400
 rc=$?
